@@ -1,0 +1,13 @@
+//go:build verif
+
+package governance
+
+import "time"
+
+// VerifDrain blocks until every task submitted to the processor's worker pool has finished
+// (the pool is released and rebooted). Used by the external conformance harness (/verif, family
+// irproc) to observe the chain calls of one event deterministically.
+func (gp *Processor) VerifDrain() {
+	_ = gp.pool.ReleaseTimeout(time.Minute)
+	gp.pool.Reboot()
+}
